@@ -5,14 +5,14 @@ set -u
 PATCH="$(readlink -f "$1")"; DEMO="$(readlink -f "$2")"
 WT=$(mktemp -d /tmp/seedwt.XXXX); rmdir "$WT"
 git -C /repo worktree add -q --detach "$WT" HEAD || exit 2
-cleanup() { git -C /repo worktree remove --force "$WT" >/dev/null 2>&1; rm -rf "$WT"; }
+cleanup() { git -C /repo worktree remove --force "$WT" >/dev/null 2>&1; rm -rf "$WT" "$WT".*.out; }
 trap cleanup EXIT
 cd "$WT"
-PYTHONPATH="$WT" timeout 600 /venv/bin/python "$DEMO" >/tmp/seed_clean.out 2>&1; c=$?
+PYTHONPATH="$WT" timeout 600 /venv/bin/python "$DEMO" >$WT.clean.out 2>&1; c=$?
 git apply "$PATCH" || { echo "PATCH DOES NOT APPLY"; exit 2; }
-PYTHONPATH="$WT" timeout 600 /venv/bin/python "$DEMO" >/tmp/seed_mut.out 2>&1; m=$?
-/verif/tools/suite.py "$WT" > /tmp/seed_suite.out 2>&1; s=$?
-echo "demo clean rc=$c  demo mutant rc=$m  suite rc=$s ($(head -1 /tmp/seed_suite.out))"
-tail -3 /tmp/seed_mut.out | cut -c1-300
+PYTHONPATH="$WT" timeout 600 /venv/bin/python "$DEMO" >$WT.mut.out 2>&1; m=$?
+/verif/tools/suite.py "$WT" > $WT.suite.out 2>&1; s=$?
+echo "demo clean rc=$c  demo mutant rc=$m  suite rc=$s ($(head -1 $WT.suite.out))"
+tail -3 $WT.mut.out | cut -c1-300
 [ $c -eq 0 ] && [ $m -ne 0 ] && [ $s -eq 0 ] && { echo SEED-OK; exit 0; }
 echo SEED-REJECTED; exit 1
